@@ -39,8 +39,17 @@ func runC06(r *core.Run) {
 				if r.Expired() {
 					return
 				}
-				for _, vs := range []string{"id", "edge", "edge2"} {
+				for _, vs := range []string{"id", "edge", "edge2", "round", "recip"} {
 					if vs == "edge2" && quick {
+						continue
+					}
+					if (vs == "round" || vs == "recip") && !d.IsFloat() {
+						continue
+					}
+					if vs == "recip" && op != "Div" {
+						continue
+					}
+					if vs == "round" && op != "Add" && op != "Sub" && op != "Mul" && op != "Div" {
 						continue
 					}
 					for _, la := range atlas.L5 {
